@@ -149,7 +149,17 @@ func oracleC01(ctx *progCtx) {
 // directory together with the verifrun registry files.
 func oracleRunnerPrep(ctx *progCtx) {
 	if ctx.CleanGo == nil {
-		oracleC01(ctx)
+		// C01 is decided by its own check: here compile problems only exclude files from the runner
+		real := ctx.W
+		quiet, err := drive.NewWriter(os.DevNull)
+		if err == nil {
+			ctx.W = quiet
+			oracleC01(ctx)
+			quiet.Close()
+			ctx.W = real
+		} else {
+			oracleC01(ctx)
+		}
 	}
 	dir := ctx.L.Ref.Dir
 	id := ctx.L.Ref.ID
